@@ -2,6 +2,7 @@
   C06 — Pool size limits hold after every insertion.  PARTIAL on the per-sender byte limit (known finding F3).
 -/
 import SV.TxCache.EvictPost
+import SV.GenProofs
 namespace SV.Props.C06
 open SV SV.TxCache
 
@@ -31,5 +32,15 @@ theorem no_pool_wide_drop_when_disabled (U : Bytes → Tx) (p : Pool) (t : Tx) (
     (he : p.cfg.evictionEnabled = false) (s : Bytes) (hs : s ≠ t.sender) :
     alookup s (addTx Variant.current p t).1.lists = alookup s p.lists :=
   evict_not_called_when_disabled U p t h hso ht he s hs
+
+/-! ### tie by translation: the source's own leaf logic (regenerated into SV/Generated/Funcs.lean on every run) IS the model's -/
+theorem source_threshold_tests_are_the_models (p : Pool) :
+    p.exceeded =
+      Gen.poolExceeded (Gen.tooManyBytes (clampNat p.numBytes) p.cfg.numBytesThreshold)
+        (Gen.tooManySenders (clampNat p.cntSenders) p.cfg.countThreshold)
+        (Gen.tooManyTxs (clampNat p.cntTx) p.cfg.countThreshold) := GenProofs.poolExceeded_eq p
+theorem source_sender_limit_test_is_the_models (cfg : Config) (l : List Tx) :
+    senderExceeded cfg l = Gen.senderExceeded cfg.numBytesPerSender cfg.countPerSender (listBytes l) l.length :=
+  GenProofs.senderExceeded_eq cfg l
 
 end SV.Props.C06
